@@ -65,6 +65,7 @@ type asCtx struct {
 	restOK bool
 	decs   []int
 	decIdx int
+	gens   int // actor instances the provider has supplied so far (instance 0 is the one given to ActorOf)
 }
 
 type asEngine struct {
@@ -194,8 +195,9 @@ func (e *asEngine) markUser(id, st int) {
 // ---- the scripted actor
 
 type asActor struct {
-	e *asEngine
-	c *asCtx
+	e   *asEngine
+	c   *asCtx
+	gen int // which instance of the actor this is (0 = passed to ActorOf, k = k-th provided by the provider)
 }
 
 func (a *asActor) OnPrelaunch(ctx vivid.PrelaunchContext) error {
@@ -231,7 +233,14 @@ func (a *asActor) OnRestarted(ctx vivid.RestartContext) error {
 	return nil
 }
 
-func (a *asActor) OnReceive(ctx vivid.ActorContext) { a.e.behave(a.c, ctx, a.c.script) }
+func (a *asActor) OnReceive(ctx vivid.ActorContext) {
+	// C05: after a restart with a provider the behaviour stack is reset to the OnReceive of the
+	// fresh instance; an older instance must never see another message
+	if a.gen != a.c.gens && a.e.viol == "" {
+		a.e.viol = fmt.Sprintf("STALE-INSTANCE: context %d (%s): a message was handled by actor instance %d although the provider has supplied instance %d for the current incarnation", a.c.cid, a.c.path, a.gen, a.c.gens)
+	}
+	a.e.behave(a.c, ctx, a.c.script)
+}
 
 func (e *asEngine) trigger(c *asCtx, ctx vivid.ActorContext) (int, int, bool) {
 	switch m := ctx.Message().(type) {
@@ -468,9 +477,9 @@ func (e *asEngine) spawn(parent *asCtx, sp asSpawner, a asAction) {
 	if a.skind != 0 {
 		opts = append(opts, vivid.WithActorSupervisionStrategy(e.strategy(c, a.skind)))
 	}
-	act := &asActor{e, c}
+	act := &asActor{e, c, 0}
 	if a.hooks&1 != 0 {
-		opts = append(opts, vivid.WithActorProvider(vivid.ActorProviderFN(func() vivid.Actor { return &asActor{e, c} })))
+		opts = append(opts, vivid.WithActorProvider(vivid.ActorProviderFN(func() vivid.Actor { c.gens++; return &asActor{e, c, c.gens} })))
 	}
 	// the context must be known before its first log record / event: register tentatively
 	e.ctxs = append(e.ctxs, c)
@@ -1000,6 +1009,20 @@ func (e *asEngine) quiescenceMonitor() string {
 		}
 		return ""
 	}
+	// every category of violation is reported (once): a property's check filters by category, so one
+	// category must not mask another
+	var vs []string
+	cats := map[string]bool{}
+	add := func(v string) {
+		cat := v
+		if k := strings.IndexAny(v, ":("); k > 0 {
+			cat = v[:k]
+		}
+		if !cats[cat] {
+			cats[cat] = true
+			vs = append(vs, v)
+		}
+	}
 	zombie := false
 	for _, c := range e.ctxs {
 		if c.ctx != nil && c.ctx.VerifState().Zombie {
@@ -1039,14 +1062,14 @@ func (e *asEngine) quiescenceMonitor() string {
 				if ms.UserLen > 0 {
 					where = fmt.Sprintf("possibly among the %d user message(s) parked in the paused mailbox of context %d (%s, state %d)", ms.UserLen, c.cid, c.path, c.ctx.VerifState().State)
 					if c.ctx.VerifState().State != 0 {
-						return fmt.Sprintf("LOST-USER-MESSAGE(stranded): user message %d is neither processed, stashed nor dead-lettered at quiescence: %s", id, where)
+						add(fmt.Sprintf("LOST-USER-MESSAGE(stranded): user message %d is neither processed, stashed nor dead-lettered at quiescence: %s", id, where))
 					}
 				}
 			}
 			if strings.HasPrefix(where, "nowhere") {
-				return fmt.Sprintf("LOST-USER-MESSAGE(swallowed): user message %d is neither processed, stashed nor dead-lettered at quiescence and sits in no queue", id)
+				add(fmt.Sprintf("LOST-USER-MESSAGE(swallowed): user message %d is neither processed, stashed nor dead-lettered at quiescence and sits in no queue", id))
 			}
-			return fmt.Sprintf("LOST-USER-MESSAGE(parked): user message %d is unsettled at quiescence: %s", id, where)
+			add(fmt.Sprintf("LOST-USER-MESSAGE(parked): user message %d is unsettled at quiescence: %s", id, where))
 		}
 	}
 	// C19: every subscriber (at publication time) that is still alive and not paused has received the event
@@ -1058,14 +1081,14 @@ func (e *asEngine) quiescenceMonitor() string {
 			}
 			st := c.ctx.VerifState()
 			if st.State == 0 && !st.Zombie && !e.mailboxOf(c).VerifState().Paused && e.pubGot[pid][cid] == 0 && c.inc == 0 && !zombie {
-				return fmt.Sprintf("EVENT-MISSED: context %d (%s) was subscribed when publication %d was made, is alive, and never received it", cid, c.path, pid)
+				add(fmt.Sprintf("EVENT-MISSED: context %d (%s) was subscribed when publication %d was made, is alive, and never received it", cid, c.path, pid))
 			}
 		}
 	}
 	// C08: the strategy is consulted at most once per failure (per level of escalation)
 	for cid, n := range e.decided {
 		if max := e.failedCount[cid] + e.escalated[cid]; n > max {
-			return fmt.Sprintf("DECIDE-TWICE: a strategy was consulted %d times for %d failure(s)/escalation(s) of context %d", n, max, cid)
+			add(fmt.Sprintf("DECIDE-TWICE: a strategy was consulted %d times for %d failure(s)/escalation(s) of context %d", n, max, cid))
 		}
 	}
 	for _, c := range e.ctxs {
@@ -1076,24 +1099,24 @@ func (e *asEngine) quiescenceMonitor() string {
 		ms := e.mailboxOf(c).VerifState()
 		// C09: no surviving actor stays paused
 		if st.State == 0 && !st.Zombie && ms.Paused {
-			return fmt.Sprintf("STAYS-PAUSED: context %d (%s) is alive and its mailbox is still paused at quiescence", c.cid, c.path)
+			add(fmt.Sprintf("STAYS-PAUSED: context %d (%s) is alive and its mailbox is still paused at quiescence", c.cid, c.path))
 		}
 		// C06/C09: nobody half-stopped
 		if st.State == 1 && !st.Zombie {
-			return fmt.Sprintf("HALF-STOPPED: context %d (%s) is still in state killing at quiescence (children %v)", c.cid, c.path, st.Children)
+			add(fmt.Sprintf("HALF-STOPPED: context %d (%s) is still in state killing at quiescence (children %v)", c.cid, c.path, st.Children))
 		}
 		// C05: a restarted actor must have received its OnLaunch
 		if e.pendingLaunch[c.cid] && st.State == 0 && !st.Zombie {
-			return fmt.Sprintf("RESTART-NO-LAUNCH: context %d (%s) was restarted but its new incarnation never saw OnLaunch", c.cid, c.path)
+			add(fmt.Sprintf("RESTART-NO-LAUNCH: context %d (%s) was restarted but its new incarnation never saw OnLaunch", c.cid, c.path))
 		}
 		// C06: terminated => path released (or taken over by a newer context)
 		if st.State == 2 && !st.Zombie {
 			if cur := e.sys.VerifLookup(c.path); cur == c.ctx {
-				return fmt.Sprintf("NOT-RELEASED: context %d (%s) is terminated but still registered", c.cid, c.path)
+				add(fmt.Sprintf("NOT-RELEASED: context %d (%s) is terminated but still registered", c.cid, c.path))
 			}
 		}
 	}
-	return ""
+	return strings.Join(vs, " ;; ")
 }
 
 // eventDelivered: C19 — an event is delivered at most once per subscriber, and only to actors that
@@ -1176,6 +1199,8 @@ func (e *asEngine) Generate(c *Ctx) {
 		n = 5000
 	}
 	e.supervisionMatrix(c)
+	e.escalationMatrix(c)
+	e.stashScenarios(c)
 	e.eventStreamScenarios(c)
 	e.schedulerScenarios(c)
 	for i := 0; i < n; i++ {
@@ -1360,6 +1385,147 @@ func (e *asEngine) supervisionMatrix(c *Ctx) {
 						c.R.Nontrivial()
 						c.R.Hit(fmt.Sprintf("matrix:dec%s:kind%d:%s:hooks%d", dec, kind, site, hooks))
 					}
+				}
+			}
+		}
+	}
+}
+
+// escalationMatrix: a failure that is escalated through one or two supervisors before somebody
+// decides: top decision x top strategy x strategy of each escalating supervisor x failure site, with a
+// healthy sibling next to the failing worker at every level and mail queued behind the failure.
+// After quiescence everybody still alive is probed (C08 C09: the resume/stop/restart must reach every
+// actor that any level of the chain paused).
+func (e *asEngine) escalationMatrix(c *Ctx) {
+	reps := 1
+	if c.Thorough() {
+		reps = 4
+	}
+	for rep := 0; rep < reps; rep++ {
+		for _, decT := range []string{"1", "2", "3", "4", "5", "51", "24", "6"} {
+			for kindT := 1; kindT <= 2; kindT++ {
+				for kindM := 1; kindM <= 2; kindM++ {
+					for depth := 1; depth <= 2; depth++ {
+						for _, site := range []string{"user", "okilled"} {
+							if !c.Thorough() && c.Rng.Chance(1, 3) {
+								continue
+							}
+							kindN := 1 + c.Rng.Intn(2)
+							c.Case("reset 1")
+							// script 1: top supervisor T: child m (escalating supervisor) and a sibling x of m
+							c.Do(fmt.Sprintf("script 1 launch:spawn.m.5.%d.6.0,spawn.x.3.0.-.0", kindM))
+							if depth == 1 {
+								// script 5: m: failing worker w and healthy sibling s
+								c.Do("script 5 launch:spawn.w.2.0.-.0,spawn.s.3.0.-.0")
+							} else {
+								// script 5: m: a second escalating supervisor n (script 6) and a healthy sibling y
+								c.Do(fmt.Sprintf("script 5 launch:spawn.n.6.%d.6.0,spawn.y.3.0.-.0", kindN))
+								c.Do("script 6 launch:spawn.w.2.0.-.0,spawn.s.3.0.-.0")
+							}
+							if site == "user" {
+								c.Do("script 2 launch:spawn.g.4.0.-.0;u2:panic;u1:tell.parent.1")
+							} else {
+								c.Do("script 2 launch:spawn.g.4.0.-.0;u3:kill.c:g;okilled:panic;u1:tell.parent.1")
+							}
+							c.Do("script 3 u1:tell.parent.1")
+							c.Do("script 4 u1:tell.parent.1")
+							c.Do(fmt.Sprintf("spawn t 1 %d %s 0", kindT, decT))
+							e.drain(c, 80)
+							base := "/t/m"
+							if depth == 2 {
+								base = "/t/m/n"
+							}
+							all := []string{"/t", "/t/x", "/t/m", base + "/w", base + "/s", base + "/w/g"}
+							if depth == 2 {
+								all = append(all, "/t/m/n", "/t/m/y")
+							}
+							c.Do("tell p:" + base + "/w 1")
+							if site == "user" {
+								c.Do("tell p:" + base + "/w 2")
+							} else {
+								c.Do("tell p:" + base + "/w 3")
+							}
+							c.Do("tell p:" + base + "/w 1")
+							c.Do("tell p:" + base + "/s 1")
+							e.drain(c, 400)
+							// a second failure of the same worker (if it survived): decision lists with two entries
+							if len(decT) == 2 {
+								if site == "user" {
+									c.Do("tell p:" + base + "/w 2")
+								} else {
+									c.Do("tell p:" + base + "/w 3")
+								}
+								e.drain(c, 400)
+							}
+							// probes after quiescence: whoever is alive must process them (parked mail is reported by `check`)
+							for _, p := range all {
+								c.Do("tell p:" + p + " 1")
+							}
+							e.drain(c, 400)
+							c.Do("check")
+							c.R.Nontrivial()
+							c.R.Hit(fmt.Sprintf("escal:dec%s:kindT%d:kindM%d:depth%d:%s", decT, kindT, kindM, depth, site))
+							c.R.Hit(fmt.Sprintf("escal:kindM%d:depth%d", kindM, depth))
+						}
+					}
+				}
+			}
+		}
+	}
+}
+
+// stashScenarios: messages parked in the stash while the actor fails and its supervisor decides
+// (every decision, with and without provider / failing restart hook), is killed, or is poisoned;
+// afterwards the survivor unstashes (C03: a stashed message stays in the stash or is processed or
+// dead-lettered — it never vanishes; C09: queued mail survives a restart).
+func (e *asEngine) stashScenarios(c *Ctx) {
+	reps := 1
+	if c.Thorough() {
+		reps = 5
+	}
+	for rep := 0; rep < reps; rep++ {
+		for _, dec := range []string{"1", "2", "3", "4", "5", "6", "k", "p"} {
+			for _, hooks := range []int{0, 1, 2, 4} {
+				if hooks != 0 && dec != "1" && dec != "2" {
+					continue
+				}
+				for _, how := range []string{"0", "1", "2", "3"} { // unstash argument afterwards
+					if !c.Thorough() && c.Rng.Chance(1, 3) {
+						continue
+					}
+					sup := dec
+					if dec == "k" || dec == "p" {
+						sup = "1"
+					}
+					c.Case("reset 1")
+					c.Do(fmt.Sprintf("script 1 launch:spawn.w.2.0.-.%d", hooks))
+					// worker: u1 stashes itself, u2 fails, u3 unstashes, u4 is an ordinary message
+					c.Do(fmt.Sprintf("script 2 u1:stash;u2:panic;u3:unstash.%s;u4:tell.parent.1", how))
+					c.Do(fmt.Sprintf("spawn p 1 1 %s 0", sup))
+					e.drain(c, 40)
+					n := 1 + c.Rng.Intn(3)
+					for i := 0; i < n; i++ {
+						c.Do("tell p:/p/w 1")
+					}
+					e.drain(c, 40)
+					c.Do("tell p:/p/w 4")
+					switch dec {
+					case "k":
+						c.Do("kill p:/p/w 0")
+					case "p":
+						c.Do("kill p:/p/w 1")
+					default:
+						c.Do("tell p:/p/w 2")
+					}
+					c.Do("tell p:/p/w 4")
+					e.drain(c, 200)
+					// whoever survived unstashes (twice: `unstash.1` releases one message per call)
+					c.Do("tell p:/p/w 3")
+					c.Do("tell p:/p/w 3")
+					e.drain(c, 200)
+					c.Do("check")
+					c.R.Nontrivial()
+					c.R.Hit(fmt.Sprintf("stash:dec%s:hooks%d", dec, hooks))
 				}
 			}
 		}
